@@ -281,3 +281,70 @@ def pyeq(x, y):
 
 def cmp(f, x, y):
     return bool(f(x, y))
+
+
+# ---- run-time twins of the mapping vocabulary (Kit M) ----
+# STR: the universe quantified string variables range over at run time (the generators draw keys from it)
+STR = ('a', 'b', 'c', 'zz')
+
+
+def entry_for(D, s):
+    for i, e in enumerate(D):
+        if _get(e, 'key') == s:
+            return i
+    return -1
+
+
+def keys_of(m):
+    return list(m.keys())
+
+
+ekeys_of = keys_of
+
+
+def enum_keys(ks):
+    return list(ks)
+
+
+def enum_pos(ks, s):
+    ks = list(ks)
+    return ks.index(s) if s in ks else -1
+
+
+def sorted_keys(ks):
+    return sorted(ks)
+
+
+def key_pos(ks, s):
+    ks = sorted(ks)
+    return ks.index(s) if s in ks else -1
+
+
+def kdiff(x, y):
+    return [k for k in x if k not in y]
+
+
+def kinter(x, y):
+    return [k for k in x if k in y]
+
+
+def keyed(em):
+    return all(_get(e, 'key') == k for k, e in em.items())
+
+
+def em_put(em, k, e):
+    out = dict(em)
+    out[k] = e
+    return out
+
+
+def same_type(x, y):
+    return type(x) is type(y)
+
+
+def path_norm(p):
+    return p or '/'
+
+
+def path_key(p, s):
+    return '/'.join((p, s))
